@@ -116,6 +116,23 @@ fn files(tier: Tier) -> Vec<(String, Vec<u8>)> {
             }
         }
     }
+    // every 16-bit pattern (x three high halves) as a constant of an 8-/16-bit integer or 16-bit float type
+    for (tn, ty) in [
+        ("i8", Inst::new("TypeInt", None, Some(1), vec![Arg::Lit32(8), Arg::Lit32(1)])),
+        ("i16", Inst::new("TypeInt", None, Some(1), vec![Arg::Lit32(16), Arg::Lit32(1)])),
+        ("u16", Inst::new("TypeInt", None, Some(1), vec![Arg::Lit32(16), Arg::Lit32(0)])),
+        ("f16", Inst::new("TypeFloat", None, Some(1), vec![Arg::Lit32(16)])),
+    ] {
+        for hi in [0u32, 0xFFFF, 0x0001] {
+            let mut w = model::header(0x0001_0300, 0, 50);
+            w.extend(enc(&ty));
+            let c = (4u32 << 16) | 43; // OpConstant, word count 4
+            for lo in 0..=0xFFFFu32 {
+                w.extend([c, 1, 2, (hi << 16) | lo]);
+            }
+            out.push((format!("narrow-constants:{}:{:#06x}", tn, hi), model::words_to_bytes(&w)));
+        }
+    }
     // short files: every length 0..=24 with the magic number, its byte-swapped form and foreign first words
     for first in [0x0723_0203u32, 0x0302_2307, 0, 0xFFFF_FFFF, 0x5249_5053, 0x0723_0204] {
         for len in 0..=24usize {
